@@ -5,7 +5,7 @@
    commutative-ring laws, EVERY shape r x c (r >= 1), EVERY entry, vector and scalar.  No law about conj is needed.
    c01s_wf r c A := A has r rows of length c. *)
 From Coq Require Import List ZArith Bool Ring.
-From DuneV Require Import C01_Model C01_Spec C01_Proofs C01_Proofs_Ops C01_Proofs_Mul C01_Proofs_Views C01_Proofs_Via C01_Proofs_Conv C01_Proofs_Neg C01_Proofs_Extra C01_Proofs_Div C01_Proofs_Zp.
+From DuneV Require Import Params_gen C01_Model C01_Model2 C01_Spec C01_Proofs C01_Proofs_Ops C01_Proofs_Mul C01_Proofs_Views C01_Proofs_Via C01_Proofs_Conv C01_Proofs_Neg C01_Proofs_Extra C01_Proofs_Div C01_Proofs_Zp C01_Proofs_Src C01_Proofs_More.
 Import ListNotations.
 
 Section C01.
@@ -201,6 +201,144 @@ Proof.
   exact (fun r c x A k W => conj (P_vdiv K x k) (conj (P_fv_divs K x k) (conj (P_mdiv K A k) (conj (P_fm_divs K r c A k W)
            (fun T N => P_scalar_division_total K T x k N))))).
 Qed.
+
+(* TIE TO THE SOURCE TEXT: the descriptors c01_param_dense_* / c01_param_diag_* are re-read from densematrix.hh / diagonalmatrix.hh
+   on every run (tools/params.d/C01.py: loop bounds rows()/cols(), index roles, conjugateComplex or not, alpha or not, += / -= / reset).
+   The kernel built from the descriptor IS the literal model kernel (and hence, by C01_kernels_dense / C01_kernels_diag, the algebraic
+   definition); an edit of one of these tokens in the source makes this theorem fail to check. *)
+Theorem C01_source_selects_model : forall (alpha : R) (A : list (list R)) (d x y : list R),
+  (c01_kernel_gen K (c01_kdesc_of c01_param_dense_mv) alpha A x y = c01_mv K A x y /\
+   c01_kernel_gen K (c01_kdesc_of c01_param_dense_mtv) alpha A x y = c01_mtv K A x y /\
+   c01_kernel_gen K (c01_kdesc_of c01_param_dense_umv) alpha A x y = c01_umv K A x y /\
+   c01_kernel_gen K (c01_kdesc_of c01_param_dense_umtv) alpha A x y = c01_umtv K A x y /\
+   c01_kernel_gen K (c01_kdesc_of c01_param_dense_umhv) alpha A x y = c01_umhv K A x y /\
+   c01_kernel_gen K (c01_kdesc_of c01_param_dense_mmv) alpha A x y = c01_mmv K A x y /\
+   c01_kernel_gen K (c01_kdesc_of c01_param_dense_mmtv) alpha A x y = c01_mmtv K A x y /\
+   c01_kernel_gen K (c01_kdesc_of c01_param_dense_mmhv) alpha A x y = c01_mmhv K A x y /\
+   c01_kernel_gen K (c01_kdesc_of c01_param_dense_usmv) alpha A x y = c01_usmv K alpha A x y /\
+   c01_kernel_gen K (c01_kdesc_of c01_param_dense_usmtv) alpha A x y = c01_usmtv K alpha A x y /\
+   c01_kernel_gen K (c01_kdesc_of c01_param_dense_usmhv) alpha A x y = c01_usmhv K alpha A x y) /\
+  (c01_dg_kernel_gen K c01_param_diag_mv alpha d x y = c01_dg_mv K d x y /\
+   c01_dg_kernel_gen K c01_param_diag_mtv alpha d x y = c01_dg_mtv K d x y /\
+   c01_dg_kernel_gen K c01_param_diag_umv alpha d x y = c01_dg_umv K d x y /\
+   c01_dg_kernel_gen K c01_param_diag_umtv alpha d x y = c01_dg_umtv K d x y /\
+   c01_dg_kernel_gen K c01_param_diag_umhv alpha d x y = c01_dg_umhv K d x y /\
+   c01_dg_kernel_gen K c01_param_diag_mmv alpha d x y = c01_dg_mmv K d x y /\
+   c01_dg_kernel_gen K c01_param_diag_mmtv alpha d x y = c01_dg_mmtv K d x y /\
+   c01_dg_kernel_gen K c01_param_diag_mmhv alpha d x y = c01_dg_mmhv K d x y /\
+   c01_dg_kernel_gen K c01_param_diag_usmv alpha d x y = c01_dg_usmv K alpha d x y /\
+   c01_dg_kernel_gen K c01_param_diag_usmtv alpha d x y = c01_dg_usmtv K alpha d x y /\
+   c01_dg_kernel_gen K c01_param_diag_usmhv alpha d x y = c01_dg_usmhv K alpha d x y).
+Proof. exact (fun alpha A d x y => conj (P_src_dense K alpha A x y) (P_src_diag K alpha d x y)). Qed.
+
+(* FRAME, explicitly: as a transformer of the three C++ objects (A and x read through their references in every iteration) every
+   kernel expressible by a descriptor writes only y ... *)
+Theorem C01_kernel_frame : forall (d : c01_kdesc) (alpha : R) (A : list (list R)) (x y : list R),
+  c01_kernel_objs K d alpha (C01_Objs A x y) = C01_Objs A x (c01_kernel_gen K d alpha A x y).
+Proof. exact (P_kernel_frame K). Qed.
+(* ... so the eleven kernels the source defines leave A and x as they were and put the algebraic definition into y (any previous y) *)
+Theorem C01_kernels_on_objects : forall r c (A : list (list R)) (alpha : R), c01s_wf r c A -> 0 < r ->
+  (forall x y, length x = c -> length y = r ->
+     c01_kernel_objs K (c01_kdesc_of c01_param_dense_mv) alpha (C01_Objs A x y) = C01_Objs A x (c01s_assign K C01_N c A x) /\
+     c01_kernel_objs K (c01_kdesc_of c01_param_dense_umv) alpha (C01_Objs A x y) = C01_Objs A x (c01s_plus K C01_N c A x y) /\
+     c01_kernel_objs K (c01_kdesc_of c01_param_dense_mmv) alpha (C01_Objs A x y) = C01_Objs A x (c01s_minus K C01_N c A x y) /\
+     c01_kernel_objs K (c01_kdesc_of c01_param_dense_usmv) alpha (C01_Objs A x y) = C01_Objs A x (c01s_plus_scaled K alpha C01_N c A x y)) /\
+  (forall x y, length x = r -> length y = c ->
+     c01_kernel_objs K (c01_kdesc_of c01_param_dense_mtv) alpha (C01_Objs A x y) = C01_Objs A x (c01s_assign K C01_T c A x) /\
+     c01_kernel_objs K (c01_kdesc_of c01_param_dense_umtv) alpha (C01_Objs A x y) = C01_Objs A x (c01s_plus K C01_T c A x y) /\
+     c01_kernel_objs K (c01_kdesc_of c01_param_dense_umhv) alpha (C01_Objs A x y) = C01_Objs A x (c01s_plus K C01_H c A x y) /\
+     c01_kernel_objs K (c01_kdesc_of c01_param_dense_mmtv) alpha (C01_Objs A x y) = C01_Objs A x (c01s_minus K C01_T c A x y) /\
+     c01_kernel_objs K (c01_kdesc_of c01_param_dense_mmhv) alpha (C01_Objs A x y) = C01_Objs A x (c01s_minus K C01_H c A x y) /\
+     c01_kernel_objs K (c01_kdesc_of c01_param_dense_usmtv) alpha (C01_Objs A x y) = C01_Objs A x (c01s_plus_scaled K alpha C01_T c A x y) /\
+     c01_kernel_objs K (c01_kdesc_of c01_param_dense_usmhv) alpha (C01_Objs A x y) = C01_Objs A x (c01s_plus_scaled K alpha C01_H c A x y)).
+Proof. exact (P_kernels_on_objects K Rth). Qed.
+
+(* in-place products with the matrix itself as the factor (after fix C01-5: through a copy of the factor) give the square *)
+Theorem C01_multiply_self : forall r (A : list (list R)), c01s_wf r r A -> 0 < r ->
+  c01_rightmultiply_self K A = c01s_mat_mul K r A A /\ c01_leftmultiply_self K A = c01s_mat_mul K r A A.
+Proof. exact (P_multiply_self K Rth). Qed.
+
+(* the transposed wrapper over a diagonal matrix; the wrapper class of this tree has mv and mtv only (no umv/usmv... to forward);
+   both overwrite y, so the statement holds for ANY previous y, in particular a non-zero one *)
+Theorem C01_transposed_wrapper_diag : c01_conj K (c01_O K) = c01_O K -> forall d x y : list R, length x = length d -> length y = length d ->
+  c01_tw_mv (c01_dg_mtv K d) x y = c01s_assign K C01_N (length d) (c01s_transpose K (length d) (c01s_diag K d)) x /\
+  c01_tw_mtv (c01_dg_mv K d) x y = c01s_assign K C01_T (length d) (c01s_transpose K (length d) (c01s_diag K d)) x.
+Proof. exact (P_wrapper_diag K Rth). Qed.
+
+(* size-1 vectors / 1x1 matrices used like the scalar they hold (free operators of FieldVector<K,1>, scalar overloads of
+   FieldMatrix<K,1,1>, conversion operators) agree with the generic loops at size 1; scalar views: closed forms of the kernels *)
+Theorem C01_size1 : forall (a k b s al : R),
+  c01_vadds K [a] k = c01_fv1_op K (c01_add K) [a] k /\ c01_vsubs K [a] k = c01_fv1_op K (c01_sub K) [a] k /\
+  c01_vscale K [a] k = c01_fv1_op K (c01_mul K) [a] k /\ c01_fv_muls K [a] k = c01_fv1_op K (c01_mul K) [a] k /\
+  c01_fv_smul K k [a] = c01_fv1_op_l K (c01_mul K) k [a] /\
+  c01_vdiv K [a] k = match c01_div K a k with Some q => Some [q] | None => None end /\
+  c01_fv_divs K [a] k = match c01_div K a k with Some q => Some [q] | None => None end /\
+  c01_fv1_op K (c01_add K) [a] k = [c01_add K a k] /\ c01_fv1_op_l K (c01_sub K) k [a] = [c01_sub K k a] /\
+  c01_fv1_conv K [a] = a /\ c01_fm11_conv K [[a]] = a /\
+  c01_fm11_scalar_r K (c01_add K) [[a]] k = [[c01_add K a k]] /\ c01_fm11_scalar_l K (c01_sub K) k [[a]] = [[c01_sub K k a]] /\
+  c01_mv K [[s]] [a] [b] = [c01_add K (c01_O K) (c01_mul K s a)] /\
+  c01_umv K [[s]] [a] [b] = [c01_add K b (c01_mul K s a)] /\ c01_umtv K [[s]] [a] [b] = [c01_add K b (c01_mul K s a)] /\
+  c01_umhv K [[s]] [a] [b] = [c01_add K b (c01_mul K (c01_conj K s) a)] /\
+  c01_mmv K [[s]] [a] [b] = [c01_sub K b (c01_mul K s a)] /\ c01_mmhv K [[s]] [a] [b] = [c01_sub K b (c01_mul K (c01_conj K s) a)] /\
+  c01_usmv K al [[s]] [a] [b] = [c01_add K b (c01_mul K (c01_mul K al s) a)] /\
+  c01_usmhv K al [[s]] [a] [b] = [c01_add K b (c01_mul K (c01_mul K al (c01_conj K s)) a)].
+Proof. exact (P_size1 K). Qed.
+
+(* arithmetic between field types (PromotionTraits): the kernels commute with any homomorphism h of the operation records, so
+   promoting the operands (int -> double -> complex) and then applying a kernel is applying it first and promoting the result *)
+Theorem C01_kernels_promote : forall (R2 : Type) (K2 : c01_ops R2) (h : R -> R2),
+  h (c01_O K) = c01_O K2 -> (forall a b, h (c01_add K a b) = c01_add K2 (h a) (h b)) -> (forall a b, h (c01_mul K a b) = c01_mul K2 (h a) (h b)) ->
+  (forall a b, h (c01_sub K a b) = c01_sub K2 (h a) (h b)) -> (forall a, h (c01_conj K a) = c01_conj K2 (h a)) ->
+  forall (A : list (list R)) (x y : list R) (alpha : R),
+  let A' := map (map h) A in let x' := map h x in let y' := map h y in
+  map h (c01_mv K A x y) = c01_mv K2 A' x' y' /\ map h (c01_mtv K A x y) = c01_mtv K2 A' x' y' /\
+  map h (c01_umv K A x y) = c01_umv K2 A' x' y' /\ map h (c01_umtv K A x y) = c01_umtv K2 A' x' y' /\
+  map h (c01_umhv K A x y) = c01_umhv K2 A' x' y' /\
+  map h (c01_mmv K A x y) = c01_mmv K2 A' x' y' /\ map h (c01_mmtv K A x y) = c01_mmtv K2 A' x' y' /\
+  map h (c01_mmhv K A x y) = c01_mmhv K2 A' x' y' /\
+  map h (c01_usmv K alpha A x y) = c01_usmv K2 (h alpha) A' x' y' /\
+  map h (c01_usmtv K alpha A x y) = c01_usmtv K2 (h alpha) A' x' y' /\
+  map h (c01_usmhv K alpha A x y) = c01_usmhv K2 (h alpha) A' x' y'.
+Proof. exact (fun R2 K2 h => P_kernels_hom K K2 h). Qed.
+
+(* in-place vector operations x op= y (+=, -=, axpy, ...) as transformers of BOTH objects: y comes back unchanged, x componentwise;
+   and with both arguments the same object (x += x, x -= x, x.axpy(a,x)) every component still combines with its own old value *)
+Theorem C01_vector_inplace_frame : forall (f : R -> R -> R) (x y : list R), length y = length x ->
+  c01_vec_inplace_objs K f (C01_VObjs x y) = C01_VObjs (c01s_map2 f x y) y /\
+  c01_vec_inplace_self K f x = map (fun a => f a a) x.
+Proof.
+  exact (fun f x y H => conj (eq_trans (P_vec_inplace_frame K f x y) (f_equal (fun v => C01_VObjs v y) (P_vec_inplace_pointwise K f x y H)))
+                             (P_vec_inplace_self K f x)).
+Qed.
+
+(* element access (operator[], operator[][], diagonal(i), row proxies): a store changes exactly the addressed entry; resize;
+   the pattern of a DiagonalMatrix (exists(i,j)) covers every entry that can be non-zero *)
+Theorem C01_access : forall r c (x : list R) (A : list (list R)) i j i' j' v, c01s_wf r c A -> i < length x -> i' < r -> j' < c ->
+  c01_at K (c01_upd x i v) j = (if Nat.eqb i j then v else c01_at K x j) /\ length (c01_upd x i v) = length x /\
+  c01_get K (c01_set2 A i' j' v) i j = (if Nat.eqb i' i && Nat.eqb j' j then v else c01_get K A i j) /\ c01s_wf r c (c01_set2 A i' j' v).
+Proof. exact (P_access K). Qed.
+Theorem C01_resize : forall (x : list R) n k r c (v : R),
+  (length (c01_resize x n k) = n /\ forall i, i < n -> c01_at K (c01_resize x n k) i = if i <? length x then c01_at K x i else k) /\
+  (c01s_wf r c (c01_mresize r c v) /\ forall i j, i < r -> j < c -> c01_get K (c01_mresize r c v) i j = v).
+Proof. exact (fun x n k r c v => conj (P_resize K x n k) (P_mresize K r c v)). Qed.
+Theorem C01_diagonal_pattern : forall (d : list R) i j, i < length d -> j < length d ->
+  c01_get K (c01s_diag K d) i j = if c01_dg_exists i j then c01_at K d i else c01_O K.
+Proof. exact (P_dg_pattern K). Qed.
+
+(* vector-space operations, dot products and the matrix product between field types: promote-then-operate = operate-then-promote *)
+Theorem C01_operations_promote : forall (R2 : Type) (K2 : c01_ops R2) (h : R -> R2),
+  h (c01_O K) = c01_O K2 -> (forall a b, h (c01_add K a b) = c01_add K2 (h a) (h b)) -> (forall a b, h (c01_mul K a b) = c01_mul K2 (h a) (h b)) ->
+  (forall a b, h (c01_sub K a b) = c01_sub K2 (h a) (h b)) -> (forall a, h (c01_conj K a) = c01_conj K2 (h a)) ->
+  forall (x y : list R) (k : R) r n p (A B : list (list R)),
+  (map h (c01_vadd K x y) = c01_vadd K2 (map h x) (map h y) /\ map h (c01_vsub K x y) = c01_vsub K2 (map h x) (map h y) /\
+   map h (c01_vscale K x k) = c01_vscale K2 (map h x) (h k) /\ map h (c01_vaxpy K x k y) = c01_vaxpy K2 (map h x) (h k) (map h y) /\
+   map h (c01_vadds K x k) = c01_vadds K2 (map h x) (h k) /\
+   h (c01_vdotT K x y) = c01_vdotT K2 (map h x) (map h y) /\ h (c01_vdot K x y) = c01_vdot K2 (map h x) (map h y)) /\
+  map (map h) (c01_fm_mul K r n p A B) = c01_fm_mul K2 r n p (map (map h) A) (map (map h) B).
+Proof.
+  exact (fun R2 K2 h H0 Ha Hm Hs Hc x y k r n p A B =>
+           conj (P_vector_hom K K2 h H0 Ha Hm Hs Hc x y k) (P_product_hom K K2 h H0 Ha Hm r n p A B)).
+Qed.
 End C01.
 Print Assumptions C01_kernels_dense.
 Print Assumptions C01_kernels_diag.
@@ -224,6 +362,18 @@ Print Assumptions C01_assignment.
 Print Assumptions C01_norms.
 Print Assumptions C01_scalar_division.
 Print Assumptions C01_division_loops.
+Print Assumptions C01_source_selects_model.
+Print Assumptions C01_kernel_frame.
+Print Assumptions C01_kernels_on_objects.
+Print Assumptions C01_multiply_self.
+Print Assumptions C01_transposed_wrapper_diag.
+Print Assumptions C01_size1.
+Print Assumptions C01_kernels_promote.
+Print Assumptions C01_vector_inplace_frame.
+Print Assumptions C01_access.
+Print Assumptions C01_resize.
+Print Assumptions C01_diagonal_pattern.
+Print Assumptions C01_operations_promote.
 
 (* the hypotheses are satisfiable: the carriers used by the correspondence check satisfy the laws *)
 Theorem C01_instance_Z : ring_theory (c01_O c01_Z_ops) (c01_I c01_Z_ops) (c01_add c01_Z_ops) (c01_mul c01_Z_ops) (c01_sub c01_Z_ops) (c01_opp c01_Z_ops) (@eq Z).
@@ -284,3 +434,35 @@ Theorem C01_instance_Zp_kernels : forall p (Hp : 0 < p) (A : list (list (c01_Zp 
   map v (c01_usmhv Kc alpha A x y) = c01_usmhv M (v alpha) A' x' y'.
 Proof. exact P_Zp_kernels_transfer. Qed.
 Print Assumptions C01_instance_Zp_kernels.
+
+(* the loops as written, called with the matrix itself as the factor, do not compute the square (finding F-C01-6, fixed by C01-5) *)
+Theorem C01_multiply_self_literal_refuted :
+  exists A : list (list Z), c01s_wf 2 2 A /\
+    c01_rightmultiply_self_literal c01_Z_ops A <> c01s_mat_mul c01_Z_ops 2 A A /\
+    c01_leftmultiply_self_literal c01_Z_ops A <> c01s_mat_mul c01_Z_ops 2 A A /\
+    c01_rightmultiply_self_literal c01_Z_ops A = [[6; 8]; [90; 120]] /\ c01_leftmultiply_self_literal c01_Z_ops A = [[6; 60]; [12; 120]].
+Proof. exact P_multiply_self_literal_refuted. Qed.
+Print Assumptions C01_multiply_self_literal_refuted.
+
+(* non-vacuity: concrete non-trivial instances of the main statements *)
+Example C01_example_objects :
+  c01_kernel_objs c01_G_ops (c01_kdesc_of c01_param_dense_usmhv) (2, 1) (C01_Objs [[(1,1);(2,0);(0,3)];[(0,0);(1,-1);(5,0)]] [(1,2);(0,1)] [(1,0);(0,1);(7,7)])
+  = C01_Objs [[(1,1);(2,0);(0,3)];[(0,0);(1,-1);(5,0)]] [(1,2);(0,1)] [(6,5);(-3,12);(17,17)].
+Proof. vm_compute. reflexivity. Qed.
+Example C01_example_division_GF7 :
+  c01_vdiv (c01_P_ops 7) (c01_vscale (c01_P_ops 7) [3; 0; 6] 5) 5 = Some [3; 0; 6] /\ c01_vdiv (c01_P_ops 7) [1; 2; 3] 0 = None.
+Proof. split; vm_compute; reflexivity. Qed.
+Example C01_example_products :
+  c01_rightmultiply c01_Z_ops [[1;2;3];[4;5;6]] [[1;0;2];[0;1;0];[3;0;1]] = [[10;2;5];[22;5;14]] /\
+  c01_mul_by_transposed c01_Z_ops (c01_mv c01_Z_ops [[1;2;3];[4;5;6]]) 1 2 [[1;0;2]] = [[7;16]] /\
+  c01_rightmultiply_self c01_Z_ops [[1;2];[3;4]] = [[7;10];[15;22]].
+Proof. repeat split; vm_compute; reflexivity. Qed.
+
+(* the view operator+ / operator- (DenseVector::operator+ instantiated for a ScalarVectorView: the copy `z` is another view of the
+   same scalar) return the right value but ALTER the operand: "no operation alters an operand it takes as input only" is refuted for
+   this one operation (finding F-C01-4; the check replays it on the implementation) *)
+Theorem C01_view_operand_altered_refuted :
+  (forall (R : Type) (f : R -> R -> R) (x y : R), fst (c01_view_binop f x y) = f x y /\ (f x y <> x -> snd (c01_view_binop f x y) <> x)) /\
+  exists x y : Z, snd (c01_view_binop Z.add x y) <> x.
+Proof. exact (conj P_view_binop P_view_binop_refuted). Qed.
+Print Assumptions C01_view_operand_altered_refuted.
